@@ -6,11 +6,13 @@ for d in seeded/*/; do
   checks=$(python3 -c "import json;print(' '.join(json.load(open('$d/meta.json')).get('checks_to_run',['$id'])))")
   [ -n "$ONLY" ] && [[ "$name" != $ONLY ]] && continue
   if ! git -C /repo diff --quiet; then echo "/repo dirty"; exit 2; fi
-  git -C /repo apply /verif/$d/patch.diff || { echo "$name: patch does not apply"; continue; }
+  # the stored patches were made against /repo at 34d3df4; later fix: commits may shift context, so fall back to a 3-way apply
+  pf=/verif/$d/patch.diff; [ -f /verif/$d/patch.ported.diff ] && pf=/verif/$d/patch.ported.diff
+  git -C /repo apply $pf 2>/dev/null || git -C /repo apply -3 $pf 2>/dev/null || { echo "$name: patch does not apply"; git -C /repo reset -q --hard; continue; }
   : > $d/detection.txt
   for c in $checks; do
     out=$(./check $c --tier ${TIER:-quick} 2>&1); code=$?
     echo "$c tier=${TIER:-quick} exit=$code $(echo "$out" | grep -m1 'what:' | cut -c1-220)" | tee -a $d/detection.txt | sed "s/^/$name: /"
   done
-  git -C /repo checkout -- . && git -C /repo clean -fdq src
+  git -C /repo reset -q --hard && git -C /repo clean -fdq src
 done
